@@ -22,7 +22,10 @@ STMTS = [
     'x = 1\nfrom __future__ import annotations', '"doc"\nfrom __future__ import division', 'a, b += 1',
     'x = [*a, *b]', 'x = {**a, **b}', 'x = {*a}', 'print(*a, sep="")', 'x = 0o17 + 0b1 + 1_000', 'x = 1__0', 'x = 0777',
     'return *a, b', 'yield *a, b', 'x[a:b, c] = 1', 'x[*a] = 1', 'del x[*a]', 'a = yield from b', 'await = 1',
-    'async = 1', 'def await(): pass', 'x = b"\\xff" "a"', 'x = "a" b"b"', 'x = f"{a}" "b"',
+    'async = 1', 'def await(): pass', 'def g():\n    nonlocal p\n    p = 1', 'def g():\n    global p\n    p = 1',
+    'nonlocal p', 'global p', 'def g():\n    def h():\n        nonlocal p\n        return p\n    return h',
+    'r = lambda: p', 'class K:\n    def m(self):\n        nonlocal p', 'def g(p):\n    def h():\n        nonlocal p',
+    'n = 0\ndef g():\n    nonlocal n\n    n += 1', 'def g():\n    nonlocal zz', 'x = b"\\xff" "a"', 'x = "a" b"b"', 'x = f"{a}" "b"',
 ]
 
 FRAME = {
